@@ -96,34 +96,35 @@ Ltac simp_hyp H :=
          | context [if ?b then _ else _] =>
              let E := fresh "E" in destruct b eqn:E; cbn [truthy negb to_int] in H
          end;
-  try discriminate H.
+  try discriminate H;
+  try (progress autorewrite with zlen in H).
 
-Ltac zlen_facts :=
+(* 0 <= zlen l for every list of cells in the context (new lists get theirs when introduced) *)
+Ltac init_lists :=
   repeat match goal with
-         | |- context [zlen ?l] =>
-             lazymatch goal with
-             | _ : 0 <= zlen l |- _ => fail
-             | _ => pose proof (zlen_nonneg l)
-             end
-         | _ : context [zlen ?l] |- _ =>
+         | l : list sval |- _ =>
              lazymatch goal with
              | _ : 0 <= zlen l |- _ => fail
              | _ => pose proof (zlen_nonneg l)
              end
          end.
 
-Ltac arith := autorewrite with zlen in *; zlen_facts; lia.
+Ltac arith := autorewrite with zlen; lia.
 
 Ltac vc_leaf := try solve [ exact I | reflexivity | arith ].
 
-Ltac vc :=
+Ltac vc_go :=
   lazymatch goal with
   | |- True => exact I
-  | |- _ /\ _ => split; vc
-  | |- ?A -> ?B => let H := fresh "H" in intro H; simp_hyp H; vc
-  | |- forall _, _ => intro; vc
+  | |- _ /\ _ => split; vc_go
+  | |- ?A -> ?B => let H := fresh "H" in intro H; simp_hyp H; vc_go
+  | |- forall l : list sval, _ =>
+      let d := fresh "d" in intro d; pose proof (zlen_nonneg d); vc_go
+  | |- forall _, _ => intro; vc_go
   | |- _ => vc_leaf
   end.
+
+Ltac vc := init_lists; vc_go.
 
 (* argsort yields valid positions *)
 Lemma idx_ok_argsort : forall d, idx_ok (zlen d) (argsort d) = true.
